@@ -133,11 +133,17 @@ def run(chk):
         okdet &= term_of(vals.get("digest")) == ("param", "digest") and term_of(vals.get("allow_truncate")) == ("param", "allow_truncate") and isinstance(vals.get("k"), VInt)
     chk.ob("R01.2", "sign_digest_deterministic -> sign_digest(the same digest, k = RFC 6979 nonce, caller's allow_truncate)", okdet, loc="keys:SigningKey.sign_digest_deterministic", key="C01|R01.2|deterministic",
            detail="deterministic signing does not hand the untouched digest and the caller's allow_truncate to sign_digest (signer and verifier would convert the digest differently)")
-    # hash fallback on both sides
-    for q in ("keys:SigningKey.sign", "keys:VerifyingKey.verify", "keys:SigningKey.sign_deterministic", "keys:SigningKey.sign_digest_deterministic"):
-        f = p.func(q)
-        ok = any(isinstance(n, ast.Assign) and norm_text(n) == "hashfunc = hashfunc or self.default_hashfunc" for n in ast.walk(f.node))
-        chk.ob("R01.2", "%s: hashfunc falls back to the key's default_hashfunc" % q.split(":")[1], ok, loc=q, key="C01|R01.2|hash|%s" % q, detail="%s does not use `hashfunc or self.default_hashfunc`" % q)
+    # hash fallback on both sides: the callable that hashes the data is the caller's hashfunc or, failing that,
+    # the key's default_hashfunc (decided from the abstract values reaching the hashing call, not from the text)
+    for q, selfv, args in (("keys:SigningKey.sign", sk, [sk, VBytes(("param", "data"))]), ("keys:VerifyingKey.verify", vk, [vk, VBytes(("param", "signature")), VBytes(("param", "data"))]),
+                           ("keys:SigningKey.sign_deterministic", sk, [sk, VBytes(("param", "data"))])):
+        it = W.interp()
+        it.analyse(q, args, {"hashfunc": VSym(("param", "hashfunc"), nullable=True)}, state=st)
+        callees = {c for site, c in it.unknown_calls if site[0] == "keys" and "hashfunc" in site[2]}
+        want_p, want_d = "Sym(('param', 'hashfunc')", "Sym(('attr', ('param', 'self'), 'default_hashfunc')"
+        ok = bool(callees) and all(c.startswith(want_p) or c.startswith(want_d) for c in callees) and any(c.startswith(want_d) for c in callees) and any(c.startswith(want_p) for c in callees)
+        chk.ob("R01.2", "%s: data hashed with the caller's hashfunc, falling back to the key's default_hashfunc" % q.split(":")[1], ok, loc=q, key="C01|R01.2|hash|%s" % q,
+               detail="%s hashes with %s" % (q, sorted(callees)))
     # ---------------- R01.3 orders
     curve = VSym(("param", "curve"), cls=frozenset(["Curve"]))
     it = W.interp()
